@@ -165,14 +165,13 @@ JudgeC08(e) ==
   LET c == CaseOf(e)  S == SchemaOf(c)  t == TypeOf(c) IN
   CASE e.ev = "rfault" ->
         IF e.res = "err" /\ ~e.big THEN OKv
-        ELSE LET why == "DecodeBebop with a reader failing (" \o e.kind \o ", " \o e.style \o ") after "
-                        \o ToString(e.k) \o " of " \o ToString(Len(c.enc)) \o " bytes: " \o
+        ELSE LET why == "DecodeBebop with a reader failing (" \o e.kind \o ", " \o e.style \o ") before the end of the record: " \o
                         (IF e.res = "err" THEN "allocation out of proportion" ELSE IF e.res = "nil" THEN "no error" ELSE e.res)
                  dev == AsIsReaderFault(Devs, S, t, c, e)
              IN IF dev # "" THEN Known(dev, why) ELSE Bad(why)
     [] e.ev = "wfault" ->
         IF e.res = "err" /\ ~e.big THEN OKv
-        ELSE Bad("EncodeBebop with write call " \o ToString(e.k) \o " failing (" \o e.kind \o ", " \o e.style \o "): " \o
+        ELSE Bad("EncodeBebop with a Write call failing (" \o e.kind \o ", " \o e.style \o "): " \o
                  (IF e.res = "err" THEN "allocation out of proportion" ELSE IF e.res = "nil" THEN "no error" ELSE e.res))
     [] e.ev = "wcount" ->
         FirstBad(<< <<e.res = "nil", "EncodeBebop to a healthy writer: " \o e.res>>,
@@ -195,6 +194,23 @@ JudgeC05(e) ==
              <<e.res # "nil" \/ ValOf(e) = Norm(S, t, v), what \o "decoded value differs from the value written">> >>)
     [] OTHER -> NAv
 
+\* C04: bytes written under the newer schema decode under the older one to the
+\* restriction of the value (c.want, computed by Gen_Evolve from RestrictTo), all consumed
+JudgeC04(e) ==
+  LET c == CaseOf(e)  S == SchemaOf(c)  t == TypeOf(c) IN
+  CASE e.ev = "dec" ->
+        LET ideal == FirstBad(<<
+              <<e.res = "nil", e.api \o " of a newer version's bytes under the older schema: " \o e.res>>,
+              <<e.res # "nil" \/ ValOf(e) = c.want, e.api \o " under the older schema does not yield the value restricted to the fields it knows">>,
+              <<e.res # "nil" \/ ~Has(e, "consumed") \/ e.consumed = Len(c.enc), "DecodeBebop under the older schema consumed a different number of bytes">> >>)
+            asisSame == e.api = "UnmarshalBebop" /\ "advance_by_decoded_size" \in Devs /\
+                        \/ (c.asis.o = "ok" /\ e.res = "nil" /\ ValOf(e) = Canon(S, t, c.asis.v))
+                        \/ (c.asis.o \in {"err", "panic"} /\ e.res = "err")
+        IN IF ideal.v = "OK" THEN ideal
+           ELSE IF asisSame THEN Known("advance_by_decoded_size", ideal.why)
+           ELSE ideal
+    [] OTHER -> NAv
+
 \* C12: whatever the generator accepts compiles
 JudgeC12(e) ==
   LET c == CaseOf(e)  sch == Schemas[c.si] IN
@@ -214,6 +230,7 @@ Judge(e) ==
     [] Prop = "C07" -> JudgeC07(e)
     [] Prop = "C08" -> JudgeC08(e)
     [] Prop = "C05" -> JudgeC05(e)
+    [] Prop = "C04" -> JudgeC04(e)
     [] Prop = "C02" -> JudgeC02(e)
     [] Prop = "C03" -> JudgeC03(e)
     [] OTHER -> NAv
